@@ -20,7 +20,51 @@ size_t n_mutants(size_t len, size_t subst_limit, size_t trunc_step)
 {
   size_t ntr = trunc_step <= 1 ? len : (len + trunc_step - 1) / trunc_step;
   size_t ns  = std::min(len, subst_limit);
-  return 1 + ntr + ns * NSUB;
+  return 1 + 2 * ntr + ns * NSUB;
+}
+// layout walker (independent of c-ares): for a cut position inside the RDATA of some resource record returns the offset
+// of that record's RDLENGTH field and the start of its RDATA; false if the message cannot be walked or the cut is elsewhere
+static bool rr_around(const Bytes &m, size_t cut, size_t &rdlen_off, size_t &rdata_start)
+{
+  if (m.size() < 12) return false;
+  size_t qd = (size_t)(m[4] << 8 | m[5]), nrr = (size_t)(m[6] << 8 | m[7]) + (size_t)(m[8] << 8 | m[9]) + (size_t)(m[10] << 8 | m[11]);
+  size_t p  = 12;
+  auto   skip_name = [&](size_t &q) {
+    for (int guard = 0; guard < 130; guard++) {
+      if (q >= m.size()) return false;
+      uint8_t c = m[q];
+      if (c == 0) {
+        q += 1;
+        return true;
+      }
+      if ((c & 0xc0) == 0xc0) {
+        q += 2;
+        return q <= m.size();
+      }
+      if (c & 0xc0) return false;
+      q += 1 + (size_t)c;
+    }
+    return false;
+  };
+  for (size_t i = 0; i < qd; i++) {
+    if (!skip_name(p)) return false;
+    p += 4;
+    if (p > m.size()) return false;
+  }
+  for (size_t i = 0; i < nrr; i++) {
+    if (!skip_name(p)) return false;
+    if (p + 10 > m.size()) return false;
+    size_t rl = (size_t)(m[p + 8] << 8 | m[p + 9]);
+    size_t rs = p + 10, re = rs + rl;
+    if (re > m.size()) return false;
+    if (cut > rs && cut < re) {
+      rdlen_off   = p + 8;
+      rdata_start = rs;
+      return true;
+    }
+    p = re;
+  }
+  return false;
 }
 bool make_mutant(const Bytes &base, size_t k, size_t subst_limit, size_t trunc_step, Bytes &out, std::string &desc)
 {
@@ -37,6 +81,20 @@ bool make_mutant(const Bytes &base, size_t k, size_t subst_limit, size_t trunc_s
     size_t nl = k * trunc_step;
     out.assign(base.begin(), base.begin() + nl);
     desc = "trunc=" + std::to_string(nl);
+    return true;
+  }
+  k -= ntr;
+  if (k < ntr) {
+    // the same cut with the enclosing record's RDLENGTH rewritten to what is left: the record (and the message) end
+    // consistently in the middle of the RDATA, so only the RDATA-internal length checks stand between the parser and
+    // the end of the buffer
+    size_t nl = k * trunc_step, lo = 0, rs = 0;
+    if (!rr_around(base, nl, lo, rs)) return false;
+    out.assign(base.begin(), base.begin() + nl);
+    size_t rl   = nl - rs;
+    out[lo]     = (uint8_t)(rl >> 8);
+    out[lo + 1] = (uint8_t)(rl & 0xff);
+    desc        = "trunc=" + std::to_string(nl) + "+rdlength=" + std::to_string(rl);
     return true;
   }
   k -= ntr;
